@@ -1,4 +1,5 @@
 import Cppcms.C10.Lemmas
+import Cppcms.C10.SockLemmas
 /-!
 # C10 — property theorems
 
@@ -54,6 +55,25 @@ comes next on the socket, parses back to the same header and payload. -/
 theorem frame_roundtrip (h : Hdr) (data : Bytes) (hf : FrameWF h data) (rest : Bytes) :
     frameOfBytes (frameBytes h data ++ rest) = (h, data) :=
   frameOfBytes_frameBytes h data hf rest
+
+/-- **Receiving a frame does not depend on how TCP cuts the stream.**  Whatever the pieces in which the
+bytes of a well-formed frame (followed by anything) arrive, `recvFrame` — header image via
+`stream_socket::read`, then exactly `size` payload bytes via `stream_socket::read` — yields that header
+and payload and leaves exactly the following bytes on the connection. -/
+theorem recv_frame_any_segmentation (h : Hdr) (data : Bytes) (hf : FrameWF h data) (rest : Bytes) (segs : Segs)
+    (hs : segs.flatten = frameBytes h data ++ rest) :
+    ∃ r, recvFrame segs = some (h, data, r) ∧ r.flatten = rest :=
+  recvFrame_spec h data hf rest segs hs
+
+/-- **`messenger::transmit` is independent of the segmentation of both directions**: with arbitrary
+segmenters for the request and for the reply (any piece sizes; keys/values/replies of any size
+below 2^32 bytes) the exchange has the same result as the unsegmented `transmit` used by the model —
+same server step, same reply header and payload. -/
+theorem transmit_segmentation_independent (cutReq cutRep : Bytes → Segs)
+    (h1 : ∀ b, (cutReq b).flatten = b) (h2 : ∀ b, (cutRep b).flatten = b)
+    (s : State) (now : Time) (h : Hdr) (data : Bytes) (hf : FrameWF h (data.take (h.get Gen.wSize))) :
+    transmitSeg cutReq cutRep s now h data = some (transmit s now h data) :=
+  C10.transmit_segmentation_independent cutReq cutRep h1 h2 s now h data hf
 
 /-- full statement (false, see the counterexamples): for **all** contents the server performs the
 store the client asked for -/
@@ -336,6 +356,13 @@ example : (step (run (Cluster.init [0, 0] [some 5, none, some 0]) (h₁ ++ [.ris
 -- an L1 entry and the server entry it copies (`l1_inv`), same generation (`gen_unique`)
 example : (labs (run (Cluster.init [0, 0] [some 5, none, some 0]) (h₁.take 3)) 0 k₁).map (·.gen) = some 0 ∧
     (sabs (run (Cluster.init [0, 0] [some 5, none, some 0]) (h₁.take 1)) (shard 2 k₁) k₁).map (·.gen) = some 0 := by decide
+-- hypotheses of `transmit_segmentation_independent`: byte-wise / 7-byte segmenters; the client's request frames
+example : ∀ b, (chunksOf 1 b).flatten = b := chunksOf_flatten 1
+example : ∀ b, (chunksOf 7 b).flatten = b := chunksOf_flatten 7
+example : FrameWF (reqFetch k₁ true (some 5)).1 ((reqFetch k₁ true (some 5)).2.take ((reqFetch k₁ true (some 5)).1.get Gen.wSize)) :=
+  frameWF_reqFetch k₁ true (some 5) (by decide)
+example : (transmitSeg (chunksOf 1) (chunksOf 3) (State.init 0 none) 0 (reqFetch k₁ true none).1 (reqFetch k₁ true none).2).isSome = true := by
+  decide
 -- hypotheses of `wire_roundtrip_store_partial` / `wire_roundtrip_data_partial`
 example : Spec.WFwire k₁ [0, 255] [t₁, [1, 2]] (-5) := ⟨by decide, by simp [t₁], by simp [t₁], by simp [k₁, t₁], by decide⟩
 example : FrameWF (reqStore k₁ [0, 255] [t₁] 77).1 (reqStore k₁ [0, 255] [t₁] 77).2 :=
